@@ -661,12 +661,10 @@ def check(rep: Report, tier: str, seed: int) -> None:
 
 
 def compare_dense(case, kind, r, rec, cycles, m, rep):
-    if kind == "value":
-        return None if m["status"] == "err value" else f"real: ValueError, model: {m['status']}"
-    if m["status"] != "ok":
-        return f"real returned, model: {m['status']}"
     hn = max(float(np.linalg.norm(case["h"], 2)), 1e-300)
-    # betas that are rounding noise, or decisions within 1e-7 of a threshold: the two binary64 runs may part ways
+    # FIRST the screening: betas that are rounding noise, or decisions within 1e-6 of a threshold — the two binary64 runs
+    # (torch / the model's own arithmetic) may part ways there in any way, including one of them raising ValueError
+    # (Ritz vector of noise); such runs are counted, not judged.
     for c in cycles:
         for j, t in enumerate(c["its"]):
             resid = abs(t["beta"] * float(t["eigh"][2][j, 0]))
@@ -677,6 +675,10 @@ def compare_dense(case, kind, r, rec, cycles, m, rep):
                 if abs(x - thr) <= 1e-6 * max(x, thr):
                     rep.count("near_ties")
                     return None
+    if kind == "value":
+        return None if m["status"] == "err value" else f"real: ValueError, model: {m['status']}"
+    if m["status"] != "ok":
+        return f"real returned, model: {m['status']}"
     if near_tie(case, cycles):
         rep.count("near_ties")
         return None
